@@ -200,6 +200,9 @@ type GuardQuery struct {
 	// the site are executed (blocks that can reach it or can be reached from it), so that values of
 	// alternative branches that never meet the site do not dilute the assumption at join points.
 	OnlyPathsThrough bool
+	// AvoidBlocks: blocks of Root (by index) that are never entered: the query explores the paths that
+	// bypass them.
+	AvoidBlocks map[int]bool
 	// ThroughSite, if set, restricts the reported returns of Root to those
 	// reachable (over executable edges) from the block of this instruction.
 	ThroughSite ssa.Instruction
@@ -477,7 +480,17 @@ func (e *gEngine) analyse(f *ssa.Function, args []lat, depth int) *fnAnalysis {
 		}
 		edgeRef[ek][v] = l
 		b := from.Succs[succ]
-		if len(b.Preds) != 1 {
+		np := len(b.Preds)
+		if e.q.AvoidBlocks != nil && f == e.q.Root && depth == 0 {
+			// predecessors that are never entered do not count
+			np = 0
+			for _, pr := range b.Preds {
+				if !e.q.AvoidBlocks[pr.Index] {
+					np++
+				}
+			}
+		}
+		if np != 1 {
 			return
 		}
 		m := refine[b.Index]
@@ -884,6 +897,9 @@ func (e *gEngine) analyse(f *ssa.Function, args []lat, depth int) *fnAnalysis {
 		if !terminated {
 			for _, s := range outs {
 				if canReach != nil && !canReach[s] && !fromSite[bi] {
+					continue
+				}
+				if e.q.AvoidBlocks != nil && f == e.q.Root && depth == 0 && e.q.AvoidBlocks[s] {
 					continue
 				}
 				ed := edge{bi, s}
